@@ -317,9 +317,25 @@ func genCase(t *rapid.T) Case {
 	case 3:
 		return Case{Kind: "guess", Text: rapid.SampledFrom([]string{`"a.b"`, `"1.5"`, `"1e5"`, `1`, `1.5`, `1e2`, `true`, `null`, `"true"`, `{`, `[`, `"."`, `x`, ``, `"e"`}).Draw(t, "lit")}
 	}
-	p := gen.Project(t, gen.ProjectOpts{RegexType: true, Container: true, KeyType: true})
-	multiDefect(t, p)
-	sp := p.Text(nil)
+	var sp sut.Project
+	if rapid.IntRange(0, 3).Draw(t, "graph") == 0 {
+		gp := gen.GraphProject(t)
+		seen := map[string]bool{}
+		var types []sut.Named
+		for _, ty := range gp.Types { // one registration per name: the permutation must not change which text a name has
+			if !seen[ty.Name] {
+				seen[ty.Name] = true
+				ty.File = ""
+				types = append(types, ty)
+			}
+		}
+		gp.Types = types
+		sp = *gp
+	} else {
+		p := gen.Project(t, gen.ProjectOpts{RegexType: true, Container: true, KeyType: true})
+		multiDefect(t, p)
+		sp = p.Text(nil)
+	}
 	c := Case{Kind: "project", Project: &sp}
 	n := len(sp.Types)
 	if n >= 2 {
